@@ -14,6 +14,8 @@ import enum
 import importlib
 import json
 import os
+import subprocess
+import sys
 from pathlib import Path
 
 import pydantic
@@ -28,7 +30,7 @@ import cascade.gateway.router as router
 import cascade.shm.api as shm_api
 
 from .. import p3
-from ..common import CaseTimeout, guarded
+from ..common import CaseTimeout, MachineryError, guarded
 
 LEVEL = "exploration"
 
@@ -216,6 +218,106 @@ class GatewayPeer:
         return _Zmq
 
 
+# ---------------------------------------------------------------- the receiving interpreter
+def _parts(o):
+    return [getattr(o, f.name) for f in dataclasses.fields(o)]
+
+
+def warm(o) -> None:
+    """Hash every hashable part, as the library does when it keeps ids in sets and dicts."""
+    if dataclasses.is_dataclass(o) and not isinstance(o, type):
+        try:
+            hash(o)
+        except TypeError:
+            pass
+        for x in _parts(o):
+            warm(x)
+    elif isinstance(o, (list, tuple, set, frozenset)):
+        for x in o:
+            warm(x)
+    elif isinstance(o, dict):
+        for k, v in o.items():
+            warm(k)
+            warm(v)
+
+
+def interchangeable(dec, loc) -> dict:
+    """What this interpreter observes about a decoded object against a locally built one of the same description."""
+    obs = {"xeq": bool(dec == loc) and bool(loc == dec), "xhash": True, "xfound": True}
+
+    def walk(d, l):
+        if type(d) is not type(l):
+            return                      # a structural difference is judged on the dumps
+        if dataclasses.is_dataclass(l) and not isinstance(l, type):
+            try:
+                hl = hash(l)
+            except TypeError:
+                hl = None
+            if hl is not None:
+                if hash(d) != hl:
+                    obs["xhash"] = False
+                if d not in {l} or l not in {d} or {d: 1}.get(l) is None or {l: 1}.get(d) is None:
+                    obs["xfound"] = False
+            for a, b in zip(_parts(d), _parts(l)):
+                walk(a, b)
+        elif isinstance(l, (list, tuple)):
+            for a, b in zip(d, l):
+                walk(a, b)
+        elif isinstance(l, (set, frozenset)):
+            if any(x not in d for x in l) or any(x not in l for x in d):
+                obs["xfound"] = False
+        elif isinstance(l, dict):
+            if any(k not in d for k in l) or any(k not in l for k in d):
+                obs["xfound"] = False
+            for k in l:
+                if k in d:
+                    walk(d[k], l[k])
+
+    walk(dec, loc)
+    return obs
+
+
+def helper_main() -> None:
+    """`python -m harness.props.c17 --helper`: one request per stdin line {proto, msg, wire}, one answer per stdout line."""
+    import logging
+    logging.disable(logging.CRITICAL)
+    out = os.fdopen(os.dup(1), "w")
+    sys.stdout = sys.stderr
+    for line in sys.stdin:
+        q = json.loads(line)
+        a = {"dec": "ok", "back": NONE, "error": "", "xeq": True, "xhash": True, "xfound": True, "seed": os.environ.get("PYTHONHASHSEED")}
+        try:
+            dec = (serde.des_message if q["proto"] == "exec_xproc" else report.deserialize)(bytes.fromhex(q["wire"]))
+            a["back"] = dump(dec)
+            a.update(interchangeable(dec, build(q["msg"])))
+        except Exception as e:
+            a.update(dec="raised", error=_err(e))
+        out.write(json.dumps(a) + "\n")
+    out.flush()
+
+
+def remote_decode(cases: list, results: list) -> int:
+    """Second half of the *_xproc cases: ONE helper interpreter with another string-hash seed decodes them all."""
+    todo = [(c, r) for c, r in zip(cases, results) if "_wire" in r]
+    if not todo:
+        return 0
+    env = dict(os.environ)
+    env["PYTHONHASHSEED"] = "4242" if env.get("PYTHONHASHSEED") != "4242" else "4243"
+    feed = "".join(json.dumps({"proto": c["proto"], "msg": c["msg"], "wire": r.pop("_wire")}) + "\n" for c, r in todo)
+    p = subprocess.run([sys.executable, "-W", "ignore", "-m", "harness.props.c17", "--helper"], input=feed, env=env,
+                       cwd=str(Path(__file__).resolve().parents[2]), capture_output=True, text=True, timeout=600)
+    answers = [json.loads(l) for l in p.stdout.splitlines() if l.startswith("{")]
+    if p.returncode != 0 or len(answers) != len(todo):
+        raise MachineryError(f"decoding helper failed (rc={p.returncode}, {len(answers)}/{len(todo)} answers): {p.stderr[-1500:]}")
+    if any(a["seed"] != env["PYTHONHASHSEED"] for a in answers):
+        raise MachineryError("decoding helper did not run under the other hash seed")
+    for (c, r), a in zip(todo, answers):
+        r.update(dec=a["dec"], back=a["back"], xeq=a["xeq"], xhash=a["xhash"], xfound=a["xfound"])
+        if a["error"]:
+            r["error"] = a["error"]
+    return len(todo)
+
+
 # ---------------------------------------------------------------- one case through the real code
 def _err(e) -> str:
     return f"{type(e).__name__}: {e}"[:200]
@@ -223,7 +325,7 @@ def _err(e) -> str:
 
 def run_case(c: dict, scratch: Path, n: int) -> dict:
     r = {"built": "ok", "sent": NONE, "sent2": NONE, "enc": "ok", "dec": "skipped", "back": NONE, "back2": NONE,
-         "frames": 0, "error": ""}
+         "frames": 0, "error": "", "xeq": True, "xhash": True, "xfound": True}
     try:
         m, m2 = build(c["msg"], c.get("how", "ctor")), build(c["msg2"])
         r["sent"], r["sent2"] = dump(m), dump(m2)
@@ -240,6 +342,14 @@ def run_case(c: dict, scratch: Path, n: int) -> dict:
             r[name] = "raised"
             r["error"] = _err(e)
             return False, None
+
+    if proto in ("exec_xproc", "report_xproc"):
+        # encode here, with the ids hashed first; the decoding half runs in the helper interpreter (see remote_decode)
+        warm(m)
+        ok, b = stage("enc", lambda: (serde.ser_message if proto == "exec_xproc" else report.serialize)(m))
+        if ok:
+            r["_wire"] = bytes(b).hex()
+        return r
 
     if proto in ("shm", "exec_plain", "report"):
         enc, dec = {"shm": (shm_api.ser, shm_api.deser), "exec_plain": (serde.ser_message, serde.des_message),
@@ -357,6 +467,7 @@ def run(ctx):
         results = [run_case(c, ctx.scratch, i) for i, c in enumerate(cases)]
     finally:
         logging.disable(logging.NOTSET)
+    ctx.coverage["decoded_in_another_interpreter"] = remote_decode(cases, results)
     rf = ctx.scratch / "c17_results.json"
     rf.write_text(json.dumps(results))
     bad = p3.judge(ctx, "Wire", consts, cases_file, rf, env=judge_env(cases_file))
@@ -382,10 +493,13 @@ def run(ctx):
                 "instances (empty, multi-output, keyword+positional edges, static inputs, serdes, ext_outputs) through the job "
                 "file; job files and job-carrying gateway requests additionally with every defaulted pydantic field (serdes, "
                 "ext_outputs, entrypoint, func, needs_gpu) filled in on the live object instead of through the constructor; "
-                "enumerated by TLC; non-trivial = the message has at least one field; TLC evaluates Wire!Post "
+                "every executor message and controller report once more encoded here (ids hashed first) and decoded by the real "
+                "decoder in a second interpreter with another PYTHONHASHSEED, where it is compared (==, hash, set/dict lookups "
+                "both ways) with a locally built message; enumerated by TLC; non-trivial = the message has at least one field; TLC evaluates Wire!Post "
                 "(structural equality of value trees) on every (case, result)",
         "clauses": ["in_domain_message_rejected", "decoding_raised", "decoded_message_differs", "decoded_response_differs",
-                    "acknowledgement_differs", "wrong_frame_count", "out_of_domain_value_altered", "harness_built_other_message",
+                    "acknowledgement_differs", "wrong_frame_count", "decoded_not_equal_to_local_message",
+                    "decoded_hashes_differently", "decoded_not_found_in_local_containers", "out_of_domain_value_altered", "harness_built_other_message",
                     "harness_could_not_build"],
     })
     ctx.sample({"case": next(c for c in cases if c["proto"] == "shm" and c["msg"]["v"].endswith("AllocateRequest"))})
@@ -408,6 +522,7 @@ def replay(ctx, rep) -> int:
     cf = ctx.scratch / "c17_replay_cases.json"
     cf.write_text(json.dumps([case]))
     result = run_case(case, ctx.scratch, 0)
+    remote_decode([case], [result])
     rf = ctx.scratch / "c17_replay_results.json"
     rf.write_text(json.dumps([result]))
     bad = p3.judge(ctx, "Wire", consts, cf, rf, tag="replay", env=judge_env(cf))
@@ -416,3 +531,7 @@ def replay(ctx, rep) -> int:
         return 1
     print("OK property=C17 replay: the recorded case satisfies the post-condition on this tree")
     return 0
+
+
+if __name__ == "__main__" and "--helper" in sys.argv:
+    helper_main()
